@@ -448,7 +448,7 @@ func init() {
 			if tier == "thorough" {
 				return 25 * time.Minute
 			}
-			return 4 * time.Minute
+			return 6 * time.Minute
 		},
 		Assumptions: []string{
 			"mock genesis (3 pillars); election tick 3 slots, epoch 6 momentums, MomentumsPerEpoch=6, RewardTimeLimit=10 s, UpdateMinNumMomentums=2 (consistent with each other); the reward logic is parametric in these constants",
